@@ -76,3 +76,9 @@ package file
 //@ ensures substrate-preserved: err == nil ==> result != nil && (typeis(result, "*file.singleNodeFile") || typeis(result, "*file.shardNodeFile")) && fileSubstrate(result) == substrate
 //@ ensures err != nil ==> result == nil
 //@ assigns nothing
+
+// ---------------------------------------------------------------------------------------------
+// C17: the metadata memo of a shared multi-block file node is written only inside sync.Once.Do.
+//@ props C17
+//@ func (*file.shardNodeFile).unpack$1
+//@ once_guarded
